@@ -57,6 +57,10 @@ type resolver struct {
 	unresolvedUses []*usesUnresolved
 	loadedModules  map[string]*Module
 	trace          bool
+
+	// submodules already merged into a module, a submodule may be included
+	// by the module and by another of its submodules
+	included map[*Module]map[string]bool
 }
 
 func (r *resolver) module(y *Module) error {
@@ -218,6 +222,16 @@ func (r *resolver) copyOverIncludes(main *Module, includes []*Include) error {
 		if i.loader == nil {
 			return errors.New("no module loader defined")
 		}
+		if r.included == nil {
+			r.included = make(map[*Module]map[string]bool)
+		}
+		if r.included[main] == nil {
+			r.included[main] = make(map[string]bool)
+		}
+		if r.included[main][i.subName] {
+			continue
+		}
+		r.included[main][i.subName] = true
 		var err error
 		var rev string
 		if i.rev != nil {
